@@ -1,6 +1,7 @@
 package props
 
 import (
+	"os"
 	"google.golang.org/protobuf/proto"
 
 	"github.com/avos-io/goat/gen/goatorepo"
@@ -98,8 +99,14 @@ func withConfig(cfgs []string, scs ...*explore.Scenario) []*explore.Scenario {
 			c.Name = sc.Name + "/with=" + cfg
 			c.Run = func() {
 				env.Config = cfg
+				env.ConfigUses = map[string]int{}
 				defer func() { env.Config = "" }()
 				base()
+				if env.Config == "" { // consumed by a NewDirect that accepted it
+					if (containsStr(cfg, "interceptors") || containsStr(cfg, "chain")) && env.ConfigUses["interceptor"] == 0 && (env.ConfigUses["stats"] > 0 || os.Getenv("VCONFIGSTRICT") != "") {
+						panic("harness: configuration " + cfg + " was requested but no RPC went through its interceptors")
+					}
+				}
 			}
 			out = append(out, &c)
 		}
